@@ -721,6 +721,13 @@ def gen_main(tier, F):
                   ['-o', 'p.opb', '-o', 'o.cnf'], ['-o', 'o.tex', '-o', '-']):
             yield case(fam, tool, '-', o, ok)
             yield case(fam, tool, '-', o, bad)
+        # output names whose extension is ALMOST 'tex' / 'opb' (other case, no
+        # dot, dot-file, not last): one format for the output and for every
+        # error, whenever the error is detected
+        for nm in ('O.TEX', 'o.Tex', 'O.OPB', 'f.Opb', 'tex', '.opb', 'o.tex.cnf', 'o.latex', 'o.dimacs'):
+            for rest in (ok, bad, ['randkcnf', '3', '2', '5'], ['kclique', '3', 'nofile.gml'],
+                         ['php', '2', '1', '-T', 'xor', '0']):
+                yield case(fam, tool, '-', ['-o', nm], rest)
         # mutually exclusive and repeated options
         for pair in (['-of', 'opb', '-l'], ['-l', '-of', 'opb'], ['-v', '-q'],
                      ['-q', '-v'], ['-q', '-q'], ['-l', '-l'],
